@@ -258,6 +258,8 @@ impl RocksDB {
 
     /// Write batch into transaction db.
     pub fn write(&self, batch: &RocksDBWriteBatch) -> Result<()> {
+        #[cfg(feature = "verif-hooks")]
+        let _verif = crate::verif_hook::CommitGuard::new("write");
         self.inner.write(&batch.inner).map_err(internal_error)
     }
 
@@ -279,6 +281,8 @@ impl RocksDB {
     ///
     /// Default: false
     pub fn write_sync(&self, batch: &RocksDBWriteBatch) -> Result<()> {
+        #[cfg(feature = "verif-hooks")]
+        let _verif = crate::verif_hook::CommitGuard::new("write-sync");
         let mut wo = WriteOptions::new();
         wo.set_sync(true);
         self.inner
